@@ -422,6 +422,37 @@ pub fn run(ctx: &Ctx) -> Outcome {
             }
             check_array_conversions(rep);
             check_frames_at_thread_exit(rep);
+            // lines that carry MORE than 255 data pairs, whatever their length field says (FF, the count modulo 256, 00) and
+            // with a checksum that makes the byte sum come out: no frame holds more than 255 bytes, so none of them decodes
+            for n in [256usize, 257, 300, 511, 512, 767, 1024] {
+                for declared in [0xFFu8, (n % 256) as u8, 0x00, 0x01] {
+                    for fill in [0xFFu8, 0x00, 0x5A] {
+                        let mut fields = vec![declared, 0x12, 0x34, 0x00];
+                        fields.extend(std::iter::repeat(fill).take(n));
+                        let sum = fields.iter().fold(0u8, |a, b| a.wrapping_add(*b));
+                        fields.push(sum.wrapping_neg());
+                        let mut line = vec![b':'];
+                        line.extend(crate::util::hex(&fields).to_ascii_uppercase().into_bytes());
+                        for crlf in [false, true] {
+                            let mut l = line.clone();
+                            if crlf {
+                                l.extend_from_slice(b"\r\n");
+                            }
+                            rep.case(Some(fnv(&l)));
+                            rep.count("lines_with_more_than_255_data_pairs");
+                            let r = catch(|| Frame::from_bytes(&l).map(|f| f.data().len()).map_err(|e| e.to_string()));
+                            let what = match r {
+                                Ok(Err(_)) => None,
+                                Ok(Ok(len)) => Some(format!("decoded to a frame of {} data bytes", len)),
+                                Err(p) => Some(format!("panic {} at {}", p.msg, short_loc(&p.loc))),
+                            };
+                            if let Some(w) = what {
+                                rep.violation(MON, "overlong_line_decodes", &format!("overlong|{}|{:02X}|{:02X}|{}", n, declared, fill, crlf), format!("a line of {} data pairs (length field {:02X}, fill {:02X}, byte sum 0): {}", n, declared, fill, w), J::obj(vec![("workload", J::s("overlong lines")), ("pairs", J::us(n)), ("declared", J::u(declared)), ("observed", J::s(w.clone()))]));
+                            }
+                        }
+                    }
+                }
+            }
             for (a, t, d) in refs::coincidence_frames() {
                 check_frame(a, t, &d, rep);
                 rep.count("coincidence_frames");
@@ -485,6 +516,7 @@ pub fn run(ctx: &Ctx) -> Outcome {
         floor("Data::from(&[u8; N]) probed for N = 4, 5, 255, 256 (present for 4 on the pinned API)", report.get("array_conversions_probed") == 4 && report.get("array_conversions_present") >= 1, report.get("array_conversions_present")),
         floor("frames encoded from a thread-local destructor at thread exit (both creation orders)", report.get("frames_encoded_at_thread_exit") == 2, report.get("frames_encoded_at_thread_exit")),
         floor("frames whose fields coincide (all fields one value, for every value; checksum equal to another field or to a syntax byte)", report.get("coincidence_frames") == 2240, report.get("coincidence_frames")),
+        floor("lines of 256 .. 1024 data pairs with a consistent checksum under every plausible length field: none decodes", report.get("lines_with_more_than_255_data_pairs") == 7 * 4 * 3 * 2, report.get("lines_with_more_than_255_data_pairs")),
         floor("try_new lengths incl. > 255", report.get("try_new_over_255_tried") >= 47, report.get("try_new_over_255_tried")),
         floor("try_new lengths around the multiples of 2^8, 2^16, 2^24 (thorough: 2^32)", report.get("try_new_wrap_lengths_tried") >= 40, report.get("try_new_wrap_lengths_tried")),
         floor("frame with address >= 0x8000", report.get("frames_addr_ge_8000") > 0, report.get("frames_addr_ge_8000")),
